@@ -634,7 +634,9 @@ func oracleBlockGroup(g []regEntry, toks []regTok, real bool, fails *[]OracleFai
 			continue
 		}
 		inList := t.free() || (last.ch >= 0 && containsByte(t.triggers(), last.ch))
-		if !inList || !keyLess(blockKey(t), blockKey(last.tok)) {
+		// when the consultation ended without an acceptance, EVERY never-skipped parser of the list must have been
+		// asked (triggered ones, then the trigger-less ones), not only those sorting before the last one asked
+		if !inList || (last.accepted && !keyLess(blockKey(t), blockKey(last.tok))) {
 			continue
 		}
 		found := false
